@@ -84,6 +84,12 @@ func checkC07(e *Env) {
 	}
 
 	judgeSentence := func(p int, op *plan.Op, r *plan.Res, wrapper bool) []byte {
+		if strings.Contains(r.Panic, "verif: injected crypto/rand panic") {
+			// the panic the monitor injected at the source travelled through the call: the
+			// source's own doing, nothing was returned
+			obs.Inc("injected_source_panics_that_propagated")
+			return nil
+		}
 		if f := failure(r); f != "" {
 			e.Violate(&Violation{What: "default-source NewMnemonic did not return normally: " + f, Ops: []plan.Op{*op}, Observed: r})
 			return nil
@@ -161,7 +167,9 @@ func checkC07(e *Env) {
 		if wrapper {
 			// interposer modes: plain recording, fragmented reads, a failing read
 			mode := "1"
-			switch (p / 2) % 7 {
+			switch (p / 2) % 8 {
+			case 7:
+				mode = "panicstr:" + itoa(1+(p*13)%calls) // the Nth read panics with a string value
 			case 6:
 				mode = "gc" // fragmented reads with a completed garbage collection before each
 			case 5:
